@@ -234,6 +234,9 @@ func init() {
 	}
 	models[rp+"WriteError"] = func(x *Exec, fr *Frame, st *State, pc *preparedCall, k func(*State, []Value)) {
 		x.recordStatus(st, x.asTermAny(pc.recv), pc.args[1].(IntV).T)
+		// httperrs(r): how many error responses the proxy itself produced on r
+		he := st.ghostArr("httperrs", SInt)
+		st.setGhostArr("httperrs", Store(he, x.asTermAny(pc.recv), Add(Select(he, x.asTermAny(pc.recv)), IntLit(1))))
 		k(st, []Value{x.freshErr(st, "werr")})
 	}
 	models["io.NewSectionReader"] = func(x *Exec, fr *Frame, st *State, pc *preparedCall, k func(*State, []Value)) {
@@ -426,46 +429,6 @@ func (x *Exec) specFieldOf(st *State, p PtrV, name string) Value {
 		}
 	}
 	return nil
-}
-
-func init() {
-	// (*http.Client).Do: with CheckRedirect == nil the client follows 3xx answers itself and the
-	// caller never sees them; a relaying proxy therefore needs a client with a redirect policy.
-	models["net/http.Client.Do"] = func(x *Exec, fr *Frame, st *State, pc *preparedCall, k func(*State, []Value)) {
-		c := pc.recv.(PtrV)
-		cr := x.specFieldOf(st, c, "CheckRedirect")
-		var has *Term = TFalse
-		if f, ok := cr.(FuncV); ok {
-			if f.Sym != nil {
-				has = Ne(f.Sym, IntLit(0))
-			} else if f.Closure != nil {
-				has = TTrue
-			}
-		}
-		x.oblige(fr, st, "pre", "http.Client.Do/redirect-policy@"+x.siteLabel(pc.e), has, pc.e)
-		x.Obls[len(x.Obls)-1].Tag = "C08"
-		sig := pc.fn.Type().(*types.Signature)
-		rt := x.resolveType(sig.Results().At(0).Type())
-		errv := x.freshErr(st, "doerr").(OpaqueV)
-		st2 := st.clone()
-		st2.assumeRaw(Ne(errv.T, IntLit(0)))
-		k(st2, []Value{x.zeroValue(rt), errv})
-		st.assumeRaw(Eq(errv.T, IntLit(0)))
-		resp := x.zeroValue(rt).(PtrV)
-		resp.Addr = x.allocAddr(st, "response")
-		// the response carries a header map and a body
-		hdr := x.specFieldOf(st, resp, "Header")
-		if m, ok := hdr.(MapV); ok {
-			nm := MapV{ID: x.allocAddr(st, "resphdrmap"), Type: m.Type}
-			x.initEmptyMap(st, nm)
-			// content unknown: forget emptiness
-			ks := mapKeyStr(nm)
-			pres := st.heapArr(ks+"#present", ArrOf(SBool))
-			st.heap[ks+"#present"] = Store(pres, nm.ID, Var(x.fresh("hdrpresent"), ArrOf(SBool)))
-			heapFieldLV{p: resp, field: "Header", ftype: x.resolveType(sig.Results().At(0).Type().(*types.Pointer).Elem().Underlying().(*types.Struct).Field(fieldIndex(rt, "Header")).Type())}.Store(x, st, nm)
-		}
-		k(st, []Value{resp, errv})
-	}
 }
 
 func fieldIndex(ptrT types.Type, name string) int {
